@@ -105,6 +105,27 @@ def gen_cases(ck, sgs, allstrata):
             n = [ck.rng.randrange(-2, 3) for _ in range(3)]
             xs = [x0[j] + n[j] for j in range(3)]
             yield sg, "shift", xs, xs, zero, st[i]
+            if st[i]["nstab"] > 1:
+                # displaced by 0.30-0.48 eps in EVERY coordinate: images of the site-symmetry operations lie up to
+                # ~0.96 eps apart per coordinate (more than eps in Euclidean norm), around the bucket edges
+                # (prime denominators; redrawn when some pair of images is within 0.1% of the cutoff in a coordinate, where
+                # exact and floating-point comparison may legitimately differ)
+                ops = exact_ops(sg)
+                for _ in range(20):
+                    f = [Fraction(ck.rng.choice([-1, 1]) * ck.rng.randrange(3002, 4804), q) for q in (10007, 10009, 10037)]
+                    xe = [x0[j] + f[j] * EPS for j in range(3)]
+                    imgs = list({apply(op, xe, zero) for op in ops})
+                    near = False
+                    for a in range(len(imgs)):
+                        for b in range(a + 1, len(imgs)):
+                            for u, v in zip(imgs[a], imgs[b]):
+                                w = (u - v) % 1
+                                w = min(w, 1 - w)
+                                if abs(w - EPS) < EPS / 1000:
+                                    near = True
+                    if not near:
+                        yield sg, "edge", x0, xe, zero, st[i]
+                        break
             n2 = [ck.rng.choice([-2, -1, -1, 1]) for _ in range(3)]
             yield sg, "inside+shift", [x0[j] + n2[j] for j in range(3)], [xin[j] + n2[j] for j in range(3)], zero, st[i]
             if ck.tier == "thorough" or i in idx[:2]:
@@ -119,11 +140,47 @@ def gen_cases(ck, sgs, allstrata):
                     yield sg, "offset+shift", xo, xo, off, st[i]
 
 
+def check_tolerance(sg, x, off, pos, cls, mult):
+    """Oracle for sites displaced from a special position by a sizeable fraction of the tolerance (`edge`): the
+    documented meaning of `eps` ("cutoff for equal positions", `equalPositions`: every coordinate differs by at most
+    eps, periodically) decides what "distinct images" are.  Returned positions must be pairwise distinct in that
+    sense, every operation attributed once, and every image within the tolerance chain (2 eps) of its position."""
+    eps = 1.0e-5
+    n = len(sg.symop_list)
+    if mult != len(pos) or len(cls) != len(pos):
+        return "inconsistent lengths: multiplicity %r, %d positions, %d op lists" % (mult, len(pos), len(cls)), None
+    for p in pos:
+        if not all(0.0 <= c < 1.0 for c in p):
+            return "position %r not reduced into the unit cell" % (list(map(float, p)),), None
+    if pdist(pos[0], [v % 1 for v in x]) > 1e-12:
+        return "input site is not first: %r" % (list(map(float, pos[0])),), None
+    for i in range(len(pos)):
+        for j in range(i + 1, len(pos)):
+            d = pdist(pos[i], pos[j])
+            if d < 0.999 * eps:
+                return ("returned positions %d and %d, %r and %r, are equal within the tolerance (largest coordinate difference %.3g < eps = 1e-5) "
+                        "but are listed as two distinct sites" % (i, j, list(map(float, pos[i])), list(map(float, pos[j])), d)), None
+    idx_of = {id(o): i for i, o in enumerate(sg.symop_list)}
+    got = [sorted(idx_of.get(id(o), -1) for o in c) for c in cls]
+    if sorted(i for c in got for i in c) != list(range(n)):
+        return "operations are not attributed exactly once", None
+    ops = exact_ops(sg)
+    for j, c in enumerate(got):
+        for i in c:
+            img = apply(ops[i], x, off)
+            if pdist(pos[j], img) > 2.002 * eps:
+                return "operation %d attributed to position %d, but its image %r is %.3g away" % (
+                    i, j, list(map(float, img)), pdist(pos[j], img)), None
+    return None, (len(pos), [list(map(float, p)) for p in pos], got)
+
+
 def check_impl(sg, kind, x0, x, off, expandPosition, GeneratorSite):
     """Oracle on the implementation result. Returns (problem or None, result summary)."""
     xf = numpy.array([float(v) for v in x])
     of = [float(v) for v in off]
     pos, cls, mult = expandPosition(sg, xf, of, 1.0e-5)
+    if kind == "edge":
+        return check_tolerance(sg, x, off, pos, cls, mult)
     opos, ocls = oracle_classes(sg, x0, off)
     n = len(sg.symop_list)
     tol = 1e-9 if not kind.startswith("inside") else 5e-7
@@ -231,9 +288,21 @@ def run(ck):
                 mm, mpos, mcls = parse_model(o, D)
             except Exception:
                 mm, mpos, mcls = -1, [], []
-            tol = 1e-9 if not kind.startswith("inside") else 5e-7
-            agree = (mm == summ[0] and len(mpos) == len(summ[1]) and all(pdist(a, b) <= tol for a, b in zip(mpos, summ[1]))
-                     and [sorted(cl) for cl in mcls] == summ[2])
+            tol = 1e-9 if not (kind.startswith("inside") or kind == "edge") else 5e-7
+            agree = (mm == summ[0] and len(mpos) == len(summ[1]) and all(pdist(a, b) <= tol for a, b in zip(mpos, summ[1])))
+            if agree and kind == "edge":
+                # an image within the cutoff of TWO listed positions may go to either (nearest-site ties are decided by
+                # round-off): attribution is compared for the operations whose image is near exactly one listed position
+                ops = exact_ops(sg)
+                where_m = {i: j for j, cl in enumerate(mcls) for i in cl}
+                where_i = {i: j for j, cl in enumerate(summ[2]) for i in cl}
+                for i, op in enumerate(ops):
+                    img = apply(op, x, off)
+                    nearby = [j for j, q in enumerate(mpos) if pdist(q, img) <= 1.001e-5]
+                    if len(nearby) == 1 and where_m.get(i) != where_i.get(i):
+                        agree = False
+            elif agree:
+                agree = [sorted(cl) for cl in mcls] == summ[2]
             if not agree:
                 # the oracle accepted the implementation's result, so the disagreement is the model's:
                 # report as a broken tie with no failing input (never silently ignore)
